@@ -250,7 +250,8 @@ def _run_automaton(func, init, step, edge=None, start=None, start_idx=0, limit=2
                         if e["k"] == "return":
                             kind, lev = "return", e
                             break
-                        if e["k"] == "throw":
+                        if e["k"] == "throw" or (e["k"] == "call" and e.get("noret")):
+                            # a call that never returns (abort, a failed assert, a [[noreturn]] throwing helper) ends the path like a throw
                             kind, lev = "throw", e
                             break
                     exits.append(Exit(s2, kind, lev, bid))
